@@ -323,7 +323,8 @@ def run(pid, tier):
     mc_stage(pid, tier, cov)
     scs = build_scenarios(pid, tier, wd, cov)
     tpath = run_driver(bindir, scs, wd)
-    info = validate_trace("Trace_WSQ", "Trace_WSQ.cfg", tpath, timeout=1500)
+    # (the thorough tier's trace has millions of records: validated in pieces cut at scenario boundaries)
+    info = validate_split("Trace_WSQ", "Trace_WSQ.cfg", tpath, "reset", timeout=1500)
     if info["consumed"] != info["total"]:
         raise ToolError("trace not fully consumed (%s of %s): malformed record at index %s" %
                         (info["consumed"], info["total"], info["consumed"] + 1))
@@ -429,7 +430,7 @@ def conc_stage(bindir, tier, wd, cov, v):
         # abort / crash under concurrency is data
         with open(tpath, "a") as f:
             f.write(json.dumps({"ev": "summary", "scenario": 0, "died": "abort", "msg": err[-300:]}) + "\n")
-    info = validate_trace("Trace_WSQConc", "Trace_WSQConc.cfg", tpath, timeout=900)
+    info = validate_split("Trace_WSQConc", "Trace_WSQConc.cfg", tpath, "creset", timeout=900)
     if info["consumed"] != info["total"]:
         raise ToolError("concurrent trace not fully consumed (%s of %s)" % (info["consumed"], info["total"]))
     byid = {s["id"]: s for s in scs}
